@@ -167,9 +167,18 @@ def gen_case(rng, tier, kind=None):
                 smax = float(np.abs(X).max()) or 1.0
                 cfg["vfloor"] = None if rng.random() < 0.2 else \
                     float(sig6(rng.choice([1e-3, 1e-2]) * smax * smax))
+            elif rng.random() < 0.2:
+                smax = float(np.abs(X).max()) or 1.0
+                cfg["vfloor"] = float(sig6(rng.choice([1e-3, 1e-2]) * smax * smax))
+            if cfg.get("vfloor") is not None and kind != "gmm_kminit" and rng.random() < 0.35:
+                # floors given per feature or per component and feature
+                rs_ = np.random.RandomState(rng.getrandbits(32))
+                shape = (d,) if rng.random() < 0.5 else (c, d)
+                cfg["vfloor"] = L(sig6(cfg["vfloor"] * rs_.uniform(0.5, 2.0, size=shape)))
             if rng.random() < 0.1:
                 cfg["mvut"] = rng.choice([1e-3, 0.5, 2.0])  # mean_var_update_threshold
             if kind == "gmm_map":
+                cfg["map_own_floor"] = rng.random() < 0.5
                 cfg["rf"] = rng.choice([None, 0.5, 4.0, 16.0])
                 cfg["alpha"] = rng.choice([0.1, 0.5, 0.9])
                 if rng.random() < 0.2:  # per-component adaptation ratios (array form)
@@ -271,6 +280,7 @@ def gen_case(rng, tier, kind=None):
         case["from_delayed"] = True
     if rng.random() < 0.08:
         case["failed_first"] = rng.choice([0, 1, 2, 3, 5, 8, 13, 21, 40])
+        case["failed_mid"] = rng.random() < 0.5  # (threads: inside a task that is under way)
     elif rng.random() < 0.06:
         case["rejected_first"] = True
     if not case.get("nan_mask") and rng.random() < 0.08:
@@ -404,12 +414,17 @@ def sample_view(case):
 # ---------------------------------------------------------------------------
 # estimator factories
 # ---------------------------------------------------------------------------
+def _vf(cfg):
+    v = cfg["vfloor"]
+    return A(v) if isinstance(v, list) else v
+
+
 def _mk_ubm(cfg):
     from bob.learn.em import GMMMachine
 
     g = GMMMachine(cfg["c"])
     if cfg.get("vfloor") is not None:
-        g.variance_thresholds = cfg["vfloor"]
+        g.variance_thresholds = _vf(cfg)
     g.means = A(cfg["means"])
     g.variances = A(cfg["variances"])
     g.weights = A(cfg["weights"])
@@ -434,18 +449,21 @@ def _make(case, max_steps, thr):
         if kind == "gmm_map":
             prior = _mk_ubm(cfg)
             alpha = A(cfg["alpha"]) if isinstance(cfg["alpha"], list) else cfg["alpha"]
-            return GMMMachine(cfg["c"], trainer="map", ubm=prior, map_alpha=alpha,
-                              map_relevance_factor=cfg["rf"], **kw)
+            g = GMMMachine(cfg["c"], trainer="map", ubm=prior, map_alpha=alpha,
+                           map_relevance_factor=cfg["rf"], **kw)
+            if cfg.get("vfloor") is not None and cfg.get("map_own_floor"):
+                g.variance_thresholds = _vf(cfg)
+            return g
         if kind == "gmm_kminit":
             km = KMeansMachine(cfg["c"], init_method=A(cfg["means"]), max_iter=cfg["km_iter"],
                                convergence_threshold=cfg["km_thr"])
             g = GMMMachine(cfg["c"], k_means_trainer=km, **kw)
             if cfg.get("vfloor") is not None:
-                g.variance_thresholds = cfg["vfloor"]
+                g.variance_thresholds = _vf(cfg)
             return g
         g = GMMMachine(cfg["c"], **kw)
         if cfg.get("vfloor") is not None:
-            g.variance_thresholds = cfg["vfloor"]
+            g.variance_thresholds = _vf(cfg)
         g.means = A(cfg["means"])
         g.variances = A(cfg["variances"])
         g.weights = A(cfg["weights"])
@@ -724,7 +742,8 @@ def run_case(case, replay=None):
                 carry["X"] = _dask_X(case, fresh())
                 _fit_once(case, carry["est"], carry["X"])
         try:
-            rec.run(dict(sched, fail_after=case["failed_first"]), first, label="failed")
+            rec.run(dict(sched, fail_after=case["failed_first"], fail_mid=bool(case.get("failed_mid"))),
+                    first, label="failed")
             rec.probe("first_attempt_finished_before_the_failure_point")
         except InjectedTaskFailure:
             rec.probe("first_attempt_failed_then_retried")
